@@ -83,7 +83,7 @@ def comp_cmds(rng, name, n):
         elif r < 0.58:
             cmds.append("ta %d %d %d" % (rng.choice([1, 2, 3]), min(sz, 256), al))
         elif r < 0.66 and smart:
-            cmds.append("%s %d %d" % (rng.choice(["uq", "uq", "ua", "sh", "ub", "sa", "sa"]), rng.choice([0, 1, 2, 3, 4, 4]), rng.choice([1, 2, 3, 7])))
+            cmds.append("%s %d %d" % (rng.choice(["uq", "uq", "ua", "sh", "ub", "sa", "sa", "sy"]), rng.choice([0, 1, 2, 3, 4, 4]), rng.choice([1, 2, 3, 7])))
         elif r < 0.70 and smart:
             cmds.append("rs %d" % rng.randint(0, 10))
         elif r < 0.73 and name in XFER_OK:
